@@ -9,17 +9,17 @@
 EXTENDS BlockStore, TraceLib
 
 VARIABLES l, run, sigs, stH, viol
-tvars == <<blocks, index, height, state, meta, ops, l, run, sigs, stH, viol>>
+tvars == <<blocks, index, height, state, meta, ops, pend, l, run, sigs, stH, viol>>
 
 e == Trace[l]
 Is(name) == l <= N /\ e.ev = name
 Adv == l' = l + 1
 
-TInit == SInit /\ ops = 0 /\ l = 1 /\ run = "" /\ sigs = <<>> /\ stH = 0 /\ viol = <<>>
+TInit == SInit /\ ops = 0 /\ pend = <<>> /\ l = 1 /\ run = "" /\ sigs = <<>> /\ stH = 0 /\ viol = <<>>
 
 TReset == /\ Is("Reset") /\ Adv /\ run' = e.run
           /\ blocks' = <<>> /\ index' = {} /\ height' = 0 /\ state' = NoVal /\ meta' = <<>> /\ sigs' = <<>> /\ stH' = 0
-          /\ UNCHANGED <<ops, viol>>
+          /\ UNCHANGED <<ops, pend, viol>>
 
 Exp(found, v) == <<found, v>>
 \* expected result of a read, as <<ok, rh, rv, rx>>
@@ -51,15 +51,15 @@ TCall ==
                  [] e.op = "setstate" -> UpdateStateEff(e.val) /\ stH' = e.h /\ UNCHANGED sigs
                  [] e.op = "setmeta" -> SetMetaEff(e.k, e.val) /\ UNCHANGED <<sigs, stH>>
                  [] OTHER -> UNCHANGED <<blocks, index, height, state, meta, sigs, stH>>
-    /\ UNCHANGED <<ops, run>>
+    /\ UNCHANGED <<ops, pend, run>>
 
 TReopen == /\ Is("Reopen") /\ Adv
            /\ viol' = viol \o Failed(<< <<"C14.Reopen", e.ok, "the database could not be reopened">> >>, l, run)
-           /\ UNCHANGED <<blocks, index, height, state, meta, ops, run, sigs, stH>>
+           /\ UNCHANGED <<blocks, index, height, state, meta, ops, pend, run, sigs, stH>>
 TPanic == /\ Is("Panic") /\ Adv /\ viol' = viol \o Failed(<< <<"C14.Panic", FALSE, "panic in store code">> >>, l, run)
-          /\ UNCHANGED <<blocks, index, height, state, meta, ops, run, sigs, stH>>
+          /\ UNCHANGED <<blocks, index, height, state, meta, ops, pend, run, sigs, stH>>
 TOther == /\ l <= N /\ Adv /\ e.ev \notin {"Reset", "Call", "Reopen", "Panic"}
-          /\ UNCHANGED <<blocks, index, height, state, meta, ops, run, sigs, stH, viol>>
+          /\ UNCHANGED <<blocks, index, height, state, meta, ops, pend, run, sigs, stH, viol>>
 
 TNext == TReset \/ TCall \/ TReopen \/ TPanic \/ TOther
 TSpec == TInit /\ [][TNext]_tvars
